@@ -452,14 +452,19 @@ def memoize_when_activated(fun):
     @functools.wraps(fun)
     def wrapper(self):
         try:
-            # case 1: we previously entered oneshot() ctx
-            ret = self._cache[fun]
+            # Keep a reference to the cache of the oneshot() ctx which
+            # is active right now: another thread may exit it (and
+            # enter a new one) while we compute the value.
+            cache = self._cache
         except AttributeError:
             # case 2: we never entered oneshot() ctx
             try:
                 return fun(self)
             except Exception as err:  # noqa: BLE001
                 raise err from None
+        try:
+            # case 1: we previously entered oneshot() ctx
+            return cache[fun]
         except KeyError:
             # case 3: we entered oneshot() ctx but there's no cache
             # for this entry yet
@@ -467,13 +472,10 @@ def memoize_when_activated(fun):
                 ret = fun(self)
             except Exception as err:  # noqa: BLE001
                 raise err from None
-            try:
-                self._cache[fun] = ret
-            except AttributeError:
-                # multi-threading race condition, see:
-                # https://github.com/giampaolo/psutil/issues/1948
-                pass
-        return ret
+            # First one to store wins, so that every caller sees the
+            # same value for the whole duration of the ctx. See also:
+            # https://github.com/giampaolo/psutil/issues/1948
+            return cache.setdefault(fun, ret)
 
     def cache_activate(proc):
         """Activate cache. Expects a Process instance. Cache will be
